@@ -103,6 +103,16 @@ CHECKS = {
              'checked to be a continuous Snell chain, and split media are compared with the unsplit tracers.',
         note='Exactness by construction (Pythagorean / rational lattices). Exponential layers only through split equivalence of '
              'amplitude-carrying solutions (tolerance 1e-4). Open known finding D23 (endpoint exactly on the reflecting boundary).'),
+    'C05': dict(
+        spec='Filter.tla', design='4.3',
+        text='Filter.tla models filter_frequencies as the zero-padded circular convolution the code performs (AsImpl) next to '
+             'the linear convolution the property demands (Expected) for integer FIR kernels; TLC checks Linear (a, b, a+2b '
+             'carried through the same filters), NoWrap (taps within +-N never wrap), Unit, Passive (single taps) and '
+             'PureDelayShifts exhaustively for N in 3..4 and by simulation up to N = 7 and 3 successive filters; the '
+             'behaviours are executed on real signals over six time grids (dt 1e-10..2 s, negative / huge offsets) with '
+             'vectorised, scalar-only and positive-frequency-only (force_real) responses, outputs compared with the integers.',
+        note='Only integer FIR responses (exact); Butterworth / attenuation curves, Hermitian symmetrisation of genuinely complex '
+             'responses and the energy clause for arbitrary |H| <= 1 are not decided. Open known finding D10 (delay beyond N wraps).'),
 }
 
 NOT_APPLICABLE = {
